@@ -85,7 +85,9 @@ func (g *Gen) bulkKeys() [][]byte {
 
 // DefaultKeys collide under DegenerateHash (lengths 0..3 mod 3) and are
 // prefixes of each other for ListKeys.
-var DefaultKeys = [][]byte{[]byte("a"), []byte("b"), []byte("ab"), []byte("ba"), []byte("abc"), []byte("abd"), []byte("b\x00"), []byte("abcd"), []byte("")}
+var DefaultKeys = [][]byte{[]byte("a"), []byte("b"), []byte("ab"), []byte("ba"), []byte("abc"), []byte("abd"), []byte("b\x00"), []byte("abcd"), []byte(""),
+	// bytes at the top of the range: a prefix ending in 0xff has no "next" prefix of the same length
+	[]byte("a\xff"), []byte("a\xff\xff"), []byte("\xff")}
 var DefaultChildren = [][]byte{[]byte("x"), []byte("y"), []byte("xy"), []byte("z\x00"), []byte("")}
 var DefaultValues = [][]byte{[]byte(""), []byte("v"), []byte("w"), []byte("a"), []byte("\x00")}
 
